@@ -871,7 +871,11 @@ mod spawn {
 		let mode = case["mode"].as_str().unwrap();
 		let (job, task) = start_job(Arc::new(Command {
 			program,
-			options: SpawnOptions { grouped: mode == "grouped", session: mode == "session", ..Default::default() },
+			options: SpawnOptions {
+				grouped: mode.split('+').any(|m| m == "grouped"),
+				session: mode.split('+').any(|m| m == "session"),
+				reset_sigmask: mode.split('+').any(|m| m == "sigmask"),
+			},
 		}));
 		let envval = bind("T2", variant + 1);
 		let via = case["via"].as_str().unwrap_or("start").to_string();
